@@ -253,6 +253,25 @@ OPS_SEQ = [('iadd', operator.iadd), ('add', operator.add), ('custom', lambda a, 
            ('append', lambda a, b: a + [b] if isinstance(a, list) else a + (b,))]
 
 
+def _first_writer_wins(acc, d):
+    for k, v in dict(d).items():
+        if k not in acc:
+            acc[k] = v
+
+
+def _count_keys(acc, d):
+    for k in dict(d):
+        acc[k] = acc.get(k, 0) + 1 if isinstance(acc.get(k, 0), int) else 1
+
+
+def _named(name, fn):
+    """a plain Python function doing what `fn` does, with the given __name__ (as if the caller had written `def update(acc, d): ...`)"""
+    def wrapper(acc, d):
+        return fn(acc, d)
+    wrapper.__name__ = wrapper.__qualname__ = name
+    return wrapper
+
+
 def one_random(col, rng):
     fam = rng.choice(['fold-num', 'fold-seq', 'sum', 'sum-seq', 'flatten', 'flatten-lazy', 'merge', 'flatten-fn', 'merge-fn', 'fold-default'])
     n = rng.choice([0, 1, 2, 3, 5, 8])
@@ -350,10 +369,16 @@ def one_random(col, rng):
         iname, ifn = rng.choice([('dict', dict), ('odict', OrderedDict), ('pre', lambda: {'pre': 1, 'a': 'init'}), ('bag', Bag)])
         init = CountInit(ifn, iname)
         oname, op = rng.choice([('none', None), ('update', 'update'), ('dict.update', dict.update),
-                                ('lambda', lambda a, b: a.update(b)), ('setdefault-loop', None)])
+                                ('lambda', lambda a, b: a.update(b)), ('setdefault-loop', None),
+                                # the caller's own functions, which happen to be NAMED like methods of the accumulator
+                                ('function-named-update', _named('update', _first_writer_wins)), ('function-named-setdefault', _named('setdefault', _first_writer_wins)),
+                                ('function-named-pop', _named('pop', _count_keys)), ('function-named-clear', _named('clear', _first_writer_wins))])
         if iname in ('bag', 'odict') and oname == 'dict.update':
             oname, op = 'update', 'update'   # (dict.update applied to an OrderedDict corrupts it in CPython)
-        ref_op = (lambda a, b: a.update(b))
+        if oname.startswith('function-named') and iname == 'bag':
+            iname, ifn = 'dict', dict
+            init = CountInit(ifn, iname)
+        ref_op = op if oname.startswith('function-named') else (lambda a, b: a.update(b))
         col.case((fam, iname, oname, ekind, lenclass, cname, spelling), n >= 2)
 
         def ref(t):
@@ -473,11 +498,29 @@ def same_spec_object_on_iterable_then_not(col):
 _PCT = {}
 
 
-def non_iterables(col):
-    class NoIter:
-        def __repr__(self):
-            return 'NoIter()'
-    targets = [5, None, 2.5, NoIter(), True]
+class NoIter:
+    def __repr__(self):
+        return 'NoIter()'
+
+
+def lazily_flatten_items_of_non_iterable_types(col):
+    """legitimate reductions whose nested ITEMS are of types glom does not iterate (strings chain into characters, numbers make the
+    flattening fail as chain.from_iterable does): afterwards such a value as the TARGET of a reduction is still a FoldError"""
+    for item in ['ab', b'ab', 5, None, 2.5, True, NoIter()]:
+        for name, fn in (('Flatten(init=lazy)', lambda: list(G([item, item], Flatten(init='lazy')))),
+                         ('flatten(levels=2)', lambda: flatten([[item], [item]], levels=2)),
+                         ('flatten(levels=2, init=lazy)', lambda: list(flatten([[item]], levels=2, init='lazy'))),
+                         ('Flatten() eager', lambda: G([item], Flatten())), ('Sum(init=list)', lambda: G([item], Sum(init=list)))):
+            got = call(fn)
+            want = call(lambda: list(itertools.chain.from_iterable([item, item])))
+            col.count('glom_evaluations')
+            col.case(('nested-non-iterable-items', name, type(item).__name__), True)
+            if name == 'Flatten(init=lazy)' and (got.ok != want.ok or (got.ok and got.value != want.value)):
+                col.violation('C15/flatten-differs-from-chain', 'lazy Flatten over [%r, %r]: %r, chain.from_iterable gives %r' % (item, item, got, want), None)
+
+
+def non_iterables(col, phase=''):
+    targets = [5, None, 2.5, NoIter(), True, 'ab', b'ab']
     specs = [('Fold', lambda: Fold(T, init=int)), ('Sum', lambda: Sum()), ('Flatten', lambda: Flatten()),
              ('Flatten-lazy', lambda: Flatten(init='lazy')), ('Merge', lambda: Merge()),
              ('Fold-sub', lambda: Fold('x', init=list)), ('Sum-sub', lambda: Sum(T['x'])),
@@ -496,15 +539,15 @@ def non_iterables(col):
             col.case(('non-iterable', name, type(t).__name__), True)
             col.count('non_iterable_cases')
             if got.ok or not isinstance(got.exc, FoldError):
-                col.violation('C15/non-iterable-not-FoldError:' + name.split('-')[0],
-                              'glom(%r, %s) gave %r, expected FoldError' % (tt, name, got), None)
+                col.violation('C15/non-iterable-not-FoldError:' + name.split('-')[0] + phase,
+                              'glom(%r, %s)%s gave %r, expected FoldError' % (tt, name, phase and ' (%s)' % phase[1:], got), None)
         for name, fn in [('flatten()', flatten), ('merge()', merge), ('merge(spec=chain)', lambda v: merge({'x': v}, spec=('x', T))),
                          ('flatten(spec=chain)', lambda v: flatten({'x': v}, spec=('x', T)))]:
             got = call(fn, t)
             col.case(('non-iterable', name, type(t).__name__), True)
             col.count('non_iterable_cases')
             if got.ok or not isinstance(got.exc, FoldError):
-                col.violation('C15/non-iterable-not-FoldError:' + name, '%s on %r gave %r' % (name, t, got), None)
+                col.violation('C15/non-iterable-not-FoldError:' + name + phase, '%s on %r%s gave %r' % (name, t, phase and ' (%s)' % phase[1:], got), None)
     got = call(flatten, [[1]], levels=-1)
     if got.ok or not isinstance(got.exc, ValueError):
         col.violation('C15/flatten-negative-levels', 'flatten(levels=-1) gave %r' % got, None)
@@ -518,5 +561,7 @@ def run(ctx):
     if ctx.shard == 0:
         non_iterables(col)
         same_spec_object_on_iterable_then_not(col)
+        lazily_flatten_items_of_non_iterable_types(col)
+        non_iterables(col, ':after-reductions-over-items-of-such-types')
     for i in range(ctx.n(20000, 100000)):
         one_random(col, rng)
